@@ -27,6 +27,12 @@ FLOORS = {"quick": {"distinct_nontrivial": 60, "breakdowns": 400, "attributed_ed
 COMM_RE = re.compile(r"^nccl.*Kernel")
 
 
+def _short(name: str) -> str:
+    """the breakdown classifies the *shortened* name (repository helper, trusted as in C17)"""
+    from hta.utils.utils import shorten_name
+    return shorten_name(name)
+
+
 def gen_case(rnd, tier: str, i: Any) -> Dict[str, Any]:
     return cpdrv.gen_case(rnd, tier, i, max_depth=rnd.choice([3, 4, 5]), ops_per_step=rnd.choice([(2, 5), (3, 8)]))
 
@@ -90,7 +96,7 @@ def run_case(case: Dict[str, Any], ctx: Any) -> core.CaseResult:
                     exp_attr = A.exp.attribution.get(((int(s.ev_idx), bool(s.is_start)), (int(d.ev_idx), bool(d.is_start))))
                     if exp_attr is not None and exp_attr != a.id:
                         res.counters["attribution_differs_from_documented_table"] += 1
-                    cls = "cpu_bound" if a.stream < 0 else ("gpu_communication_bound" if COMM_RE.match(a.name) else "gpu_compute_bound")
+                    cls = "cpu_bound" if a.stream < 0 else ("gpu_communication_bound" if COMM_RE.match(_short(a.name)) else "gpu_compute_bound")
             elif t == refcp.T_LAUNCH:
                 cls = "gpu_kernel_launch_overhead"
             if cls:
